@@ -271,30 +271,7 @@ impl<'a> World<'a> {
     }
 
     pub fn cmp_entry_pub(&self, de: &DirEntry, e: &fatspec::Ent) -> Option<String> {
-        let lib_name = sfn_bytes(&de.name);
-        if lib_name != e.name {
-            return Some(format!("name {:?} vs {:?}", lib_name, e.name));
-        }
-        if de.size != e.size {
-            return Some(format!("size {} vs {}", de.size, e.size));
-        }
-        if attr_bits(&de.attributes) != e.attr & 0x3F {
-            return Some(format!("attr {:#x} vs {:#x}", attr_bits(&de.attributes), e.attr));
-        }
-        let want_cluster = if e.cluster == 0 && e.is_dir() { 0xFFFF_FFFC } else { e.cluster };
-        if cluster_num(&de.cluster) != want_cluster {
-            return Some(format!("cluster {:#x} vs {:#x}", cluster_num(&de.cluster), want_cluster));
-        }
-        if de.entry_block.0 != e.block || de.entry_offset != e.off as u32 {
-            return Some(format!("location ({},{}) vs ({},{})", de.entry_block.0, de.entry_offset, e.block, e.off));
-        }
-        if let Some(d) = cmp_time(&de.ctime, e.ctime) {
-            return Some(format!("ctime {}", d));
-        }
-        if let Some(d) = cmp_time(&de.mtime, e.mtime) {
-            return Some(format!("mtime {}", d));
-        }
-        None
+        cmp_entry(de, e)
     }
 
     pub fn op_iterate(&mut self, ds: u8, fl: u8, lfn: Option<u16>, reent: Option<u8>) {
@@ -559,4 +536,51 @@ pub fn reentrant_calls(
             }
         }
     }
+}
+
+/// Compare a DirEntry handed out by the library with the independent reader's decoding of the same slot.
+pub fn cmp_entry(de: &DirEntry, e: &fatspec::Ent) -> Option<String> {
+    if !same_name(&de.name, &e.name) {
+        return Some(format!("name {:?} vs {:?}", format!("{}", de.name), e.name));
+    }
+    if de.size != e.size {
+        return Some(format!("size {} vs {}", de.size, e.size));
+    }
+    if attr_bits(&de.attributes) != e.attr & 0x3F {
+        return Some(format!("attr {:#x} vs {:#x}", attr_bits(&de.attributes), e.attr));
+    }
+    let want_cluster = if e.cluster == 0 && e.is_dir() { 0xFFFF_FFFC } else { e.cluster };
+    if cluster_num(&de.cluster) != want_cluster {
+        return Some(format!("cluster {:#x} vs {:#x}", cluster_num(&de.cluster), want_cluster));
+    }
+    if de.entry_block.0 != e.block || de.entry_offset != e.off as u32 {
+        return Some(format!("location ({},{}) vs ({},{})", de.entry_block.0, de.entry_offset, e.block, e.off));
+    }
+    if let Some(d) = cmp_time(&de.ctime, e.ctime) {
+        return Some(format!("ctime {}", d));
+    }
+    if let Some(d) = cmp_time(&de.mtime, e.mtime) {
+        return Some(format!("mtime {}", d));
+    }
+    None
+}
+
+/// The public API shows a ShortFileName only through Display, base_name()/extension() and csum().
+/// Two names are taken as equal when the checksum over all eleven bytes agrees and Display prints
+/// what it must print for the reader's bytes (every non-space byte in order, a dot before the
+/// extension).
+pub fn same_name(n: &embedded_sdmmc::ShortFileName, raw: &[u8; 11]) -> bool {
+    if n.csum() != fatspec::sfn_checksum(raw) {
+        return false;
+    }
+    let mut want = String::new();
+    for (i, &c) in raw.iter().enumerate() {
+        if c != b' ' {
+            if i == 8 {
+                want.push('.');
+            }
+            want.push(c as char);
+        }
+    }
+    format!("{}", n) == want
 }
